@@ -62,13 +62,24 @@ def run(tier):
              "subins": [t for s in (r["subins"] or []) for t in [s]] if r["subins"] is not None else gen.tokens(r["raw"].get("original_instrs", "")),
              "_r": r}
         (small if ps["b0"] <= limit and len(ps["ins"]) <= 10 else large).append(c)
+    import corpus
     if tier == "quick" and len(small) > 1200:
-        import corpus
         small = corpus.sample(small, 1200, seed)
+    if tier == "thorough":
+        # exhaustive search is exponential in the bound: all of the short ones up to a cap, samples of the longer ones
+        by = {}
+        for c in small:
+            by.setdefault(c["b0"], []).append(c)
+        small = []
+        for b0, cs in sorted(by.items()):
+            cap = 8000 if b0 <= 5 else 3000 if b0 == 6 else 500 if b0 == 7 else 120
+            keep = corpus.sample(cs, cap, seed + b0)
+            small += keep
+            large += [c for c in cs if c not in keep] if len(keep) < len(cs) and len(cs) < 20000 else []
     for i, c in enumerate(small + large):
         c["id"] = i + 1
     strip = lambda c: {k: v for k, v in c.items() if not k.startswith("_")}
-    minlen, verd, st, finished = search([strip(c) for c in small], timeout=240 if tier == "quick" else 1500)
+    minlen, verd, st, finished = search([strip(c) for c in small], timeout=240 if tier == "quick" else 2400)
     # witnesses for everything with a greedy sequence: validated under the published bounds
     wit_cases = [{"id": c["id"], "sfs": c["sfs"], "ids": sfsproj.proj_ids(c["_r"]["ids"]), "maxlen": c["b0"], "maxstack": c["bs"]}
                  for c in small + large if c["_r"]["ids"] is not None]
@@ -101,7 +112,8 @@ def run(tier):
     out = findings.settle("C16", viol, lambda c: {"block": c["_r"]["block"], "sub": c["_r"]["name"], "options": c["_r"]["opt"],
                                                   "sfs": c["_r"]["raw"], "key": c["_r"]["raw"].get("original_instrs", "") + " @" + c["_r"]["opt"]},
                           lambda c: [c["_r"]["raw"].get("original_instrs", "") + " @" + c["_r"]["opt"]]
-                          + ["bounds|" + k for k in findings.rule_kinds(c["_r"]["raw"].get("rules", []))])
+                          + ["bounds|" + k for k in findings.rule_kinds(c["_r"]["raw"].get("rules", []))]
+                          + (["misaligned-overlap"] if findings.misaligned_overlap(c["_r"]["raw"].get("original_instrs", "")) else []))
     if exhaustive_ok == 0:
         raise common.MachineryError("vacuity guard: no specification was searched exhaustively")
     cov = {"states": st["states"] + wst["states"], "transitions": st["transitions"] + wst["transitions"],
